@@ -111,4 +111,215 @@ theorem enumFrom_snd : ∀ (xs : List Node) (i : Nat), (enumFrom i xs).map (fun 
   | nil => intro i; rfl
   | cons x xs ih => intro i; simp [enumFrom, ih]
 
+/-! ## an induction principle for documents -/
+
+mutual
+theorem nodeInduct (P : Node → Prop)
+    (hscalar : ∀ a v, P (.scalar a v))
+    (hseq : ∀ a xs, (∀ x ∈ xs, P x) → P (.seq a xs))
+    (hmap : ∀ a es, (∀ kv ∈ es, P kv.2) → P (.map a es))
+    (hset : ∀ a ms, P (.set a ms)) : (n : Node) → P n
+  | .scalar a v => hscalar a v
+  | .seq a xs => hseq a xs (nodeInductList P hscalar hseq hmap hset xs)
+  | .map a es => hmap a es (nodeInductEntries P hscalar hseq hmap hset es)
+  | .set a ms => hset a ms
+theorem nodeInductList (P : Node → Prop)
+    (hscalar : ∀ a v, P (.scalar a v))
+    (hseq : ∀ a xs, (∀ x ∈ xs, P x) → P (.seq a xs))
+    (hmap : ∀ a es, (∀ kv ∈ es, P kv.2) → P (.map a es))
+    (hset : ∀ a ms, P (.set a ms)) : (xs : List Node) → ∀ x ∈ xs, P x
+  | [], _, h => by cases h
+  | x :: xs, y, h => by
+    cases h with
+    | head => exact nodeInduct P hscalar hseq hmap hset x
+    | tail _ h' => exact nodeInductList P hscalar hseq hmap hset xs y h'
+theorem nodeInductEntries (P : Node → Prop)
+    (hscalar : ∀ a v, P (.scalar a v))
+    (hseq : ∀ a xs, (∀ x ∈ xs, P x) → P (.seq a xs))
+    (hmap : ∀ a es, (∀ kv ∈ es, P kv.2) → P (.map a es))
+    (hset : ∀ a ms, P (.set a ms)) : (es : List (Key × Node)) → ∀ kv ∈ es, P kv.2
+  | [], _, h => by cases h
+  | (k, v) :: es, kv, h => by
+    cases h with
+    | head => exact nodeInduct P hscalar hseq hmap hset v
+    | tail _ h' => exact nodeInductEntries P hscalar hseq hmap hset es kv h'
+end
+
+/-! ## `clean` -/
+
+@[simp] theorem clean_nil : clean [] = true := rfl
+@[simp] theorem clean_append (a b : List Entry) : clean (a ++ b) = (clean a && clean b) := by
+  simp [clean, List.all_append]
+@[simp] theorem clean_cons (e : Entry) (es : List Entry) : clean (e :: es) = ((e.action == .same) && clean es) := by
+  simp [clean]
+
+/-! ## well-formed documents -/
+
+theorem hasKey_of_mem {es : List (Key × Node)} {kv : Key × Node} (h : kv ∈ es) : hasKey es kv.1 = true := by
+  simp only [hasKey, List.any_eq_true]
+  exact ⟨kv, h, by simp⟩
+
+theorem lookup_of_mem : ∀ {es : List (Key × Node)}, distinctKeys es = true → ∀ kv ∈ es, es.lookup kv.1 = some kv.2 := by
+  intro es
+  induction es with
+  | nil => intro _ kv h; cases h
+  | cons e es ih =>
+    obtain ⟨k0, v0⟩ := e
+    intro hd kv h
+    simp only [distinctKeys, Bool.and_eq_true, Bool.not_eq_eq_eq_not, Bool.not_true] at hd
+    cases h with
+    | head => simp
+    | tail _ h' =>
+      have hk : hasKey es kv.1 = true := hasKey_of_mem h'
+      have hne : (kv.1 == k0) = false := by
+        cases hkk : (kv.1 == k0) with
+        | false => rfl
+        | true =>
+          have : kv.1 = k0 := by simpa using hkk
+          rw [this] at hk
+          rw [hk] at hd
+          cases hd.1
+      rw [List.lookup_cons, hne]
+      exact ih hd.2 kv h'
+
+theorem wf_seq_mem {a : Option Str} : ∀ {xs : List Node}, wf (.seq a xs) = true → ∀ x ∈ xs, wf x = true := by
+  intro xs
+  induction xs with
+  | nil => intro _ x h; cases h
+  | cons y ys ih =>
+    intro hw x hx
+    simp only [wf, wfList, Bool.and_eq_true] at hw
+    cases hx with
+    | head => exact hw.1
+    | tail _ h' => exact ih (by simpa [wf] using hw.2) x h'
+
+theorem wfEntries_mem : ∀ {es : List (Key × Node)}, wfEntries es = true → ∀ kv ∈ es, wf kv.2 = true := by
+  intro es
+  induction es with
+  | nil => intro _ x h; cases h
+  | cons y ys ih =>
+    obtain ⟨k, v⟩ := y
+    intro hw x hx
+    simp only [wfEntries, Bool.and_eq_true] at hw
+    cases hx with
+    | head => exact hw.1
+    | tail _ h' => exact ih hw.2 x h'
+
+theorem wf_map {a : Option Str} {es : List (Key × Node)} (h : wf (.map a es) = true) :
+    distinctKeys es = true ∧ ∀ kv ∈ es, wf kv.2 = true := by
+  simp only [wf, Bool.and_eq_true] at h
+  exact ⟨h.1, wfEntries_mem h.2⟩
+
+/-! ## Python `==` is reflexive on well-formed documents -/
+
+theorem eqvList_refl : ∀ (xs : List Node), (∀ x ∈ xs, eqv x x = true) → eqvList xs xs = true := by
+  intro xs
+  induction xs with
+  | nil => intro _; rfl
+  | cons x xs ih =>
+    intro h
+    simp only [eqvList, Bool.and_eq_true]
+    exact ⟨h x (List.mem_cons_self ..), ih (fun y hy => h y (List.mem_cons_of_mem _ hy))⟩
+
+theorem eqvEntries_of_lookup : ∀ (es fs : List (Key × Node)),
+    (∀ kv ∈ es, ∃ w, fs.lookup kv.1 = some w ∧ eqv kv.2 w = true) → eqvEntries es fs = true := by
+  intro es
+  induction es with
+  | nil => intro fs _; rfl
+  | cons e es ih =>
+    obtain ⟨k, v⟩ := e
+    intro fs h
+    obtain ⟨w, hw, hvw⟩ := h (k, v) (List.mem_cons_self ..)
+    simp only [eqvEntries, hw, hvw, Bool.true_and]
+    exact ih fs (fun kv hkv => h kv (List.mem_cons_of_mem _ hkv))
+
+theorem eqv_refl : ∀ (n : Node), wf n = true → eqv n n = true := by
+  intro n
+  induction n using nodeInduct with
+  | hscalar a v => intro _; simp [eqv]
+  | hseq a xs ih =>
+    intro hw
+    simp only [eqv]
+    exact eqvList_refl xs (fun x hx => ih x hx (wf_seq_mem hw x hx))
+  | hmap a es ih =>
+    intro hw
+    obtain ⟨hd, hv⟩ := wf_map hw
+    simp only [eqv, Bool.and_eq_true, List.all_eq_true]
+    refine ⟨eqvEntries_of_lookup es es (fun kv hkv => ⟨kv.2, lookup_of_mem hd kv hkv, ih kv hkv (hv kv hkv)⟩), ?_⟩
+    intro kv hkv
+    exact hasKey_of_mem hkv
+  | hset a ms =>
+    intro _
+    simp only [eqv, Bool.and_eq_true, List.all_eq_true]
+    exact ⟨fun k hk => by simpa using hk, fun k hk => by simpa using hk⟩
+
+theorem mem_of_lookup : ∀ {es : List (Key × Node)} {k : Key} {v : Node}, es.lookup k = some v → (k, v) ∈ es := by
+  intro es
+  induction es with
+  | nil => intro k v h; simp at h
+  | cons e es ih =>
+    obtain ⟨k0, v0⟩ := e
+    intro k v h
+    rw [List.lookup_cons] at h
+    cases hk : (k == k0) with
+    | true =>
+      rw [hk] at h
+      have : k = k0 := by simpa using hk
+      cases h; rw [this]; exact List.mem_cons_self ..
+    | false =>
+      rw [hk] at h
+      exact List.mem_cons_of_mem _ (ih h)
+
+/-! ## `keyed` -/
+
+theorem keyedList_mem {c : Cfg} : ∀ {xs : List Node}, keyedList c xs = true → ∀ x ∈ xs, keyed c x = true := by
+  intro xs
+  induction xs with
+  | nil => intro _ x h; cases h
+  | cons y ys ih =>
+    intro hw x hx
+    simp only [keyedList, Bool.and_eq_true] at hw
+    cases hx with
+    | head => exact hw.1
+    | tail _ h' => exact ih hw.2 x h'
+
+theorem keyedEntries_mem {c : Cfg} : ∀ {es : List (Key × Node)}, keyedEntries c es = true → ∀ kv ∈ es, keyed c kv.2 = true := by
+  intro es
+  induction es with
+  | nil => intro _ x h; cases h
+  | cons y ys ih =>
+    obtain ⟨k, v⟩ := y
+    intro hw x hx
+    simp only [keyedEntries, Bool.and_eq_true] at hw
+    cases hx with
+    | head => exact hw.1
+    | tail _ h' => exact ih hw.2 x h'
+
+theorem keyed_seq {c : Cfg} {a : Option Str} {xs : List Node} (h : keyed c (.seq a xs) = true) :
+    (usesKeySync c xs = true → ∀ x ∈ xs, hasIdentity (keyAttr xs) x = true) ∧ ∀ x ∈ xs, keyed c x = true := by
+  simp only [keyed, Bool.and_eq_true, Bool.or_eq_true, Bool.not_eq_eq_eq_not, Bool.not_true, List.all_eq_true] at h
+  refine ⟨fun hu x hx => ?_, keyedList_mem h.2⟩
+  cases h.1 with
+  | inl h1 => rw [hu] at h1; cases h1
+  | inr h2 => exact h2 x hx
+
+theorem keyMatch_refl {ka : Key} {x : Node} (hw : wf x = true) (hi : hasIdentity ka x = true) :
+    keyMatch ka x x = true := by
+  unfold hasIdentity at hi
+  cases hk : keyVal ka x with
+  | none => rw [hk] at hi; cases hi
+  | some v =>
+    simp only [keyMatch, hk]
+    cases x with
+    | map a es =>
+      simp only [keyVal] at hk
+      exact eqv_refl v ((wf_map hw).2 (ka, v) (mem_of_lookup hk))
+    | scalar a v' => simp [keyVal] at hk
+    | seq a xs => simp [keyVal] at hk
+    | set a ms => simp [keyVal] at hk
+
+theorem removeFirst_head {f : Node → Bool} {y : Nat × Node} {ys : List (Nat × Node)} (h : f y.2 = true) :
+    removeFirst f (y :: ys) = some (y, ys) := by
+  simp [removeFirst, h]
+
 end Ypv.Diff
